@@ -332,6 +332,8 @@ class Ctx:
 
     def __init__(self, mode='sym', timeout_ms=20000, choices=None, values=None, max_paths=None):
         self.mode = mode
+        self.has_strings = False
+        self._last = None
         self.timeout_ms = timeout_ms
         self.solver = None
         self.trail = []            # [taken, [pending alternatives], kind]
@@ -369,7 +371,17 @@ class Ctx:
     def _check(self, *extra):
         t = time.time()
         self.queries += 1
-        r = self.solver.check(*extra)
+        if self.has_strings:
+            # z3's sequence solver is unreliable incrementally (observed: a 10 ms query times out after earlier checks
+            # on the same solver object): string paths are decided on a fresh solver per query
+            s2 = z3.Solver()
+            s2.set('timeout', self.timeout_ms)
+            s2.add(*self.solver.assertions())
+            r = s2.check(*extra)
+            self._last = s2
+        else:
+            r = self.solver.check(*extra)
+            self._last = self.solver
         self.solver_time += time.time() - t
         return r
 
@@ -382,6 +394,7 @@ class Ctx:
         self.nonzero_ids = set()
         self._path_sym_claims = 0
         self._path_claims = 0
+        self.has_strings = False
         if self.mode == 'sym':
             self.solver.reset()
             self.solver.set('timeout', self.timeout_ms)
@@ -415,6 +428,25 @@ class Ctx:
         if hi is not None:
             self.solver.add(t <= hi)
         return SNum(t)
+
+    def strvar(self, name, domain=None, maxlen=6):
+        """symbolic string (z3 String under a regular-language domain); concrete replay: the model's string"""
+        if name in self.vars:
+            raise RuntimeError(f"duplicate symbolic variable {name}")
+        if self.mode == 'conc':
+            v = self.replay_values.get(name)
+            if v is None:
+                v = 'x'
+            self.vars[name] = v
+            return v
+        t = z3.String(name)
+        self.has_strings = True
+        self.vars[name] = t
+        if domain is not None:
+            self.solver.add(z3.InRe(t, domain))
+        if maxlen is not None:
+            self.solver.add(z3.Length(t) <= maxlen)
+        return t
 
     def mark_nonzero(self, v):
         if isinstance(v, SNum):
@@ -500,7 +532,7 @@ class Ctx:
             return
         m = None
         if self._check() == z3.sat:
-            m = self.solver.model()
+            m = self._last.model()
         self._record(label, m, detail, sig)
 
     def prove(self, label, claim, detail='', **sig):
@@ -526,7 +558,7 @@ class Ctx:
             self.proved_symbolic += 1
             return True
         if r == z3.sat:
-            self._record(label, self.solver.model(), detail, sig, claim=claim.z)
+            self._record(label, self._last.model(), detail, sig, claim=claim.z)
             return False
         self.inconclusive.append((f"solver unknown on claim {label}", list(self.choices)))
         return None
@@ -539,7 +571,7 @@ class Ctx:
     def _pretty_model(self, claim):
         """try to get a small-integer model for the same violated claim (nicer, exactly representable replays)"""
         vs = list(self.vars.values())
-        if not vs:
+        if not vs or self.has_strings:
             return None
         self.solver.push()
         try:
@@ -548,6 +580,8 @@ class Ctx:
             for bound in (4, 64):
                 self.solver.push()
                 for v in vs:
+                    if z3.is_string(v):
+                        continue
                     if v.is_int():
                         self.solver.add(v >= -bound, v <= bound)
                     else:
@@ -571,6 +605,8 @@ class Ctx:
             vs = list(self.vars.values())
             self.solver.push()
             for i, v in enumerate(vs):
+                if z3.is_string(v):
+                    continue
                 if not v.is_int():
                     k = z3.Int(f"__k{i}")
                     self.solver.add(v == z3.ToReal(k) + z3.RealVal('1/2'), k >= -9, k <= 9)
@@ -588,6 +624,8 @@ class Ctx:
                     out[name] = v.as_long()
                 elif z3.is_rational_value(v):
                     out[name] = v.numerator_as_long() / v.denominator_as_long()
+                elif z3.is_string_value(v):
+                    out[name] = _unescape(v.as_string())
                 else:
                     return None
             return out
@@ -615,6 +653,8 @@ class Ctx:
                     values[name] = v.as_long()
                 elif z3.is_rational_value(v):
                     values[name] = v.numerator_as_long() / v.denominator_as_long()
+                elif z3.is_string_value(v):
+                    values[name] = _unescape(v.as_string())
                 elif z3.is_algebraic_value(v):
                     values[name] = float(v.approx(20).as_fraction())
                 else:
@@ -626,6 +666,12 @@ class Ctx:
         self.findings.append(Finding(label=label, detail=str(detail)[:400], sig=dict(sig),
                                      choices=list(self.choices), values=values,
                                      labels=list(self.labels), notes=_jsonable(self.notes)))
+
+
+def _unescape(s):
+    """z3 prints non-printable characters as \\u{hex}"""
+    import re
+    return re.sub(r'\\u\{([0-9a-fA-F]+)\}', lambda m: chr(int(m.group(1), 16)), s)
 
 
 def _jsonable(x):
@@ -643,6 +689,7 @@ def _jsonable(x):
 
 # --------------------------------------------------------------------------- module-level API (delegates to CTX)
 def var(name, kind='real', **kw): return CTX.var(name, kind, **kw)
+def strvar(name, domain=None, maxlen=6): return CTX.strvar(name, domain, maxlen)
 def choice(n, label=''): return CTX.choice(n, label)
 def assume(c): return CTX.assume(c)
 def prove(label, claim, detail='', **sig): return CTX.prove(label, claim, detail, **sig)
